@@ -176,6 +176,18 @@ func VerifyFunction(p *Program, name string, opt Options) FnReport {
 		}
 		rep.Results = append(rep.Results, r)
 	}
+	for _, so := range p.Spec.StoredOnlyIn {
+		if so[1] != name {
+			continue
+		}
+		bad := p.StoredOnlyInScan(so[0], so[1:])
+		r := OblResult{Oblig: Oblig{Fn: name, Name: fc.Name + "/scan.storedonlyin." + so[0], Kind: "scan.stores", Where: so[0], Text: so[0] + " is stored only in " + strings.Join(so[1:], ", ")}, Status: "proved", Raw: "scan", Solver: "ssa-scan"}
+		if len(bad) > 0 {
+			r.Status = "failed"
+			r.Output = strings.Join(bad, "; ")
+		}
+		rep.Results = append(rep.Results, r)
+	}
 	for _, oc := range p.Spec.OnlyCalledFrom {
 		if oc[1] != name {
 			continue
